@@ -39,6 +39,7 @@ CONSTANTS Plans,        \* set of fault plans (see PoolRunMC)
           FixClose,     \* FALSE: instance does not close its gun (negative control)
           FixPanic,     \* FALSE: a recovered shot panic is returned as nil (negative control)
           ErrKinds,     \* which VALUE a failing component returns (plan field ek), see Cls below
+          FixEngCancel, \* FALSE: the pools run on the CALLER's ctx, Engine.Run's deferred cancel() does not reach them (negative control)
           FixIsCtx      \* FALSE: IsCtxError accepts any context-kind cause once ctx is done (negative control)
 
 VARIABLES
@@ -99,7 +100,10 @@ ERet(k, p, c)  == [k |-> k, p |-> p, c |-> c]
 \* A cancel takes effect one step AFTER the step that decides it (the hook / log line of the deciding
 \* step is written before cancel() is called, and another goroutine may read the context in between).
 EngineCtxDone == userCancel \/ engDefer                        \* deferred cancel() of Engine.Run
-PoolDone(p)   == EngineCtxDone \/ poolPc[p] \in {"report", "done"}   \* deferred cancel() of instancePool.Run
+\* the ctx handed to pool.Run: Engine.Run's own derived ctx, so that its deferred cancel() stops EVERY pool,
+\* whatever made Run return (the first failed pool, the caller's cancel, or success)
+PoolParentDone == userCancel \/ (FixEngCancel /\ engDefer)
+PoolDone(p)   == PoolParentDone \/ poolPc[p] \in {"report", "done"}   \* deferred cancel() of instancePool.Run
 \* cancel() closes the context's own Done channel first and its children afterwards, one by one: a reader of the
 \* run / start context can still see it open although the parent (or the cancel decision) is already visible to
 \* others.  CtxProp is that propagation.  (Pool and engine ctx are only ever read as "done", so no lag is modelled.)
@@ -263,7 +267,7 @@ PoolAsync(p) ==
 
 \* final select of instancePool.Run: case <-ctx.Done(): return ctx.Err()
 PoolSelectCancel(p) ==
-  /\ poolPc[p] = "select" /\ EngineCtxDone
+  /\ poolPc[p] = "select" /\ PoolParentDone
   /\ poolRet' = [poolRet EXCEPT ![p] = Ret("ctx", "")]
   /\ poolPc' = [poolPc EXCEPT ![p] = "ret"]
   /\ UNCHANGED <<plan, engVars, wdCount, ctxVars, provVars, aggVars, stVars, facVars, instVars, awVars, failed>>
@@ -420,7 +424,9 @@ InstCreate(p, i, o) ==
 (* instance.Run                                                            *)
 (* ======================================================================= *)
 
-Tok(p, i) == IF PP(p).shared THEN stok[p] ELSE itok[p][i]
+\* a "long" pool (plan field long) has a schedule and ammo that do not run out within the run: it stops only
+\* when its context is done
+Tok(p, i) == IF PP(p).long THEN 1 ELSE IF PP(p).shared THEN stok[p] ELSE itok[p][i]
 
 \* coreutil.callbackOnFinishSchedule around the shared schedule: the first observer of the end
 \* cancels the instance start (unless the start ctx is already done)
@@ -451,7 +457,7 @@ InstAcquire(p, i) ==
   /\ ipc[p][i] = "acq"
   /\ IF qClosed[p] THEN Decide(p, i, "ooa") /\ UNCHANGED ammoLeft
      ELSE /\ prov[p] = "run" /\ ammoLeft[p] > 0
-          /\ ammoLeft' = [ammoLeft EXCEPT ![p] = @ - 1]
+          /\ ammoLeft' = [ammoLeft EXCEPT ![p] = IF PP(p).long THEN @ ELSE @ - 1]
           /\ ipc' = [ipc EXCEPT ![p][i] = "wait"] /\ UNCHANGED icls
   /\ UNCHANGED <<plan, engVars, poolVars, ctxVars, prov, provCh, qClosed, aggVars, stVars, facVars, itok, ishots, gun, closes, resBag, stok, awVars, failed>>
 
@@ -462,7 +468,8 @@ InstWait(p, i) ==
      ELSE IF Tok(p, i) = 0
           THEN ipc' = [ipc EXCEPT ![p][i] = "check"] /\ SchedEndSeen(p) /\ UNCHANGED <<itok, stok>>
           ELSE /\ ipc' = [ipc EXCEPT ![p][i] = "shoot"]
-               /\ IF PP(p).shared THEN stok' = [stok EXCEPT ![p] = @ - 1] /\ UNCHANGED itok
+               /\ IF PP(p).long THEN UNCHANGED <<itok, stok>>
+                  ELSE IF PP(p).shared THEN stok' = [stok EXCEPT ![p] = @ - 1] /\ UNCHANGED itok
                   ELSE itok' = [itok EXCEPT ![p][i] = @ - 1] /\ UNCHANGED stok
                /\ UNCHANGED startCancelled
   /\ UNCHANGED <<plan, engVars, poolVars, runCancelled, runClosed, startClosed, provVars, aggVars, stVars, facVars, ishots, icls, gun, closes, resBag, awVars, failed>>
@@ -472,7 +479,7 @@ Panics(p, i) == PP(p).panicInst = i /\ PP(p).panicShot = ishots[p][i] + 1
 
 InstShoot(p, i) ==
   /\ ipc[p][i] = "shoot"
-  /\ ishots' = [ishots EXCEPT ![p][i] = @ + 1]
+  /\ ishots' = [ishots EXCEPT ![p][i] = IF PP(p).long THEN @ ELSE @ + 1]
   /\ IF Panics(p, i)
      THEN /\ Decide(p, i, IF FixPanic THEN "panic" ELSE "nil")
           /\ failed' = [failed EXCEPT ![p] = @ \cup {"panic"}]
@@ -656,6 +663,10 @@ CtxOnlyIfCancelled == engRet.k = "ctx" => cancelAtRet
 SuppressedOnlyWhenDone == \A p \in Pools : supp[p] # {} => PoolDone(p)
 \* a cancelled Run is never blocked: its own next step returns
 CancelPrompt == (userCancel /\ engRet.k = "none") => ENABLED EngStep
+\* Once Run has returned - for ANY reason: a failed pool, the caller's cancel, success - and its deferred cancel()
+\* has run, the context of EVERY pool is done: nothing of any pool can keep running on its own (with Termination:
+\* all instances, providers and aggregators of all pools stop and Wait returns, also when the caller never cancels)
+StopAfterReturn == engDefer => \A p \in Pools : PoolDone(p)
 WaitDoneOnce == \A p \in Pools : wdCount[p] <= 1
 WaitOnlyAfterAll == waitRet => \A p \in Pools : wdCount[p] = 1 /\ aw[p].pc \in {"idle", "done"}
                                                /\ prov[p] \in {"idle", "done"} /\ agg[p] \in {"idle", "done"}
